@@ -1,10 +1,11 @@
 pub mod c02;
+pub mod session;
 pub mod treecheck;
 
 use crate::core::Check;
 
 pub fn registry() -> Vec<&'static dyn Check> {
-    vec![&c02::C02]
+    vec![&session::C01, &c02::C02, &session::C04]
 }
 
 pub fn find(id: &str) -> Option<&'static dyn Check> {
